@@ -188,10 +188,14 @@ def eval_case(ctx, pyhf, c, bk, prec):
     rt = 1e-10 if p64 else 3e-3
     maxd = 0.0
     nmain = m.config.nmaindata
+    # the points of a case are written, one after the other, into ONE parameter buffer that is updated in place (what a caller scanning
+    # or sampling parameters does): an evaluation must depend on the buffer's current contents only
+    pbuf = np.zeros(len(c['pts'][0]), dtype=np.float64)
     for k, (p, d) in enumerate(zip(c['pts'], c['datas'])):
         ctx.count()
         tl = pyhf.tensorlib
-        pa = tl.astensor(np.asarray(p, dtype=np.float64)); da = tl.astensor(np.asarray(d, dtype=np.float64))
+        pbuf[:] = p
+        pa = tl.astensor(pbuf); da = tl.astensor(np.asarray(d, dtype=np.float64))
         inp = {'spec': spec, 'pars': p, 'data': d, 'settings': st, 'backend': [bk, prec]}
         try:
             lp = float(np.asarray(tl.tolist(m.logpdf(pa, da))).ravel()[0])
